@@ -1447,3 +1447,343 @@ pub fn c10_amortised(ctx: &mut Ctx) {
 }
 #[cfg(not(feature = "alloc"))]
 pub fn c10_amortised(_ctx: &mut Ctx) {}
+
+// ---------------------------------------------------------------------------------------------
+// C10: capacity promises at sizes the small-scope families do not reach (page multiples, powers of two, +-1)
+
+#[cfg(feature = "alloc")]
+pub fn c10_large(ctx: &mut Ctx) {
+    use any_vec::mem::Heap;
+    if ctx.tool_mode {
+        return;
+    }
+    let mut sp = Sp::new(ctx, "large-capacity", "Heap-large".into());
+    sp.ctx.ordinal = 0;
+    monalloc::set_mode(monalloc::MODE_OFF);
+    fn sizes<T>() -> Vec<usize> {
+        let sz = size_of::<T>().max(1);
+        let mut bytes: Vec<usize> = Vec::new();
+        for k in 1..=40usize {
+            bytes.extend([4096 * k - 1, 4096 * k, 4096 * k + 1]);
+        }
+        for p in 12..=22u32 {
+            bytes.extend([(1usize << p) - 1, 1usize << p, (1usize << p) + 1]);
+        }
+        bytes.extend([1000, 7777, 65_537, 69_632, 100_000, 1_000_003]);
+        let mut ns: Vec<usize> = bytes.iter().flat_map(|b| [b / sz, (b + sz - 1) / sz]).filter(|n| *n > 0).collect();
+        ns.sort();
+        ns.dedup();
+        ns
+    }
+    fn run<T: Elem>(sp: &mut Sp) {
+        for n in sizes::<T>() {
+            for scenario in 0..5u8 {
+                if !sp.take() {
+                    continue;
+                }
+                reg::reset();
+                let opsig = ["with_capacity", "reserve_exact", "reserve", "release-then-reserve", "typed.reserve_exact"][scenario as usize];
+                let desc = format!("{}:Heap|{opsig}({n})", T::NAME);
+                let ids: Vec<Id> = (1..=3).map(|i| if T::ID_BITS == 0 { 0 } else { i }).collect();
+                let fill = |v: &mut AnyVec<dyn TNone, Heap>| ids.iter().for_each(|i| v.push(AnyValueWrapper::new(T::make(*i))));
+                let r = guarded(|| -> Result<(), String> {
+                    let intact = |v: &AnyVec<dyn TNone, Heap>| -> Result<(), String> {
+                        match snap_ids::<T, _, _>(v) {
+                            Ok(got) if got == ids => Ok(()),
+                            other => Err(format!("elements changed: {other:?}, expected {ids:?}")),
+                        }
+                    };
+                    match scenario {
+                        0 => {
+                            let mut v: AnyVec<dyn TNone, Heap> = AnyVec::with_capacity::<T>(n);
+                            if v.capacity() < n {
+                                return Err(format!("with_capacity({n}) gives capacity {}", v.capacity()));
+                            }
+                            let c = v.capacity();
+                            fill(&mut v);
+                            if n >= 3 && v.capacity() != c {
+                                return Err(format!("capacity changed from {c} to {} by three pushes into with_capacity({n})", v.capacity()));
+                            }
+                            intact(&v)?;
+                            // shrink_to(m) ends at exactly max(len, m) on the heap backend
+                            let m = n / 2 + 1;
+                            v.shrink_to(m);
+                            let want = c.min(m.max(3));
+                            if v.capacity() != want {
+                                return Err(format!("shrink_to({m}) from capacity {c} ends at {} instead of {want}", v.capacity()));
+                            }
+                            intact(&v)
+                        }
+                        1 | 2 | 4 => {
+                            let mut v: AnyVec<dyn TNone, Heap> = AnyVec::new::<T>();
+                            fill(&mut v);
+                            match scenario {
+                                1 => v.reserve_exact(n),
+                                2 => v.reserve(n),
+                                _ => v.downcast_mut::<T>().unwrap().reserve_exact(n),
+                            }
+                            if v.capacity() < 3 + n {
+                                return Err(format!("len 3, {opsig}({n}) leaves capacity {}", v.capacity()));
+                            }
+                            let c = v.capacity();
+                            // already satisfied: no change
+                            v.reserve(n);
+                            v.reserve_exact(n);
+                            if v.capacity() != c {
+                                return Err(format!("capacity {c} already held len + {n}, a second reserve changed it to {}", v.capacity()));
+                            }
+                            intact(&v)?;
+                            v.shrink_to_fit();
+                            if v.capacity() != 3 {
+                                return Err(format!("shrink_to_fit from capacity {c} with len 3 ends at {}", v.capacity()));
+                            }
+                            intact(&v)
+                        }
+                        _ => {
+                            // grow big, release everything, grow by a different amount, shrink, grow again
+                            let mut v: AnyVec<dyn TNone, Heap> = AnyVec::with_capacity::<T>(n);
+                            v.shrink_to_fit();
+                            if v.capacity() != 0 {
+                                return Err(format!("shrink_to_fit of an empty vector of capacity {n} ends at {}", v.capacity()));
+                            }
+                            v.reserve(n + 1);
+                            if v.capacity() < n + 1 {
+                                return Err(format!("after releasing a block of {n}, reserve({}) leaves capacity {}", n + 1, v.capacity()));
+                            }
+                            fill(&mut v);
+                            v.shrink_to(0);
+                            if v.capacity() != 3 {
+                                return Err(format!("shrink_to(0) with len 3 ends at {}", v.capacity()));
+                            }
+                            v.reserve_exact(2 * n);
+                            if v.capacity() < 3 + 2 * n {
+                                return Err(format!("len 3, reserve_exact({}) leaves capacity {}", 2 * n, v.capacity()));
+                            }
+                            intact(&v)
+                        }
+                    }
+                });
+                match r {
+                    Ok(Ok(())) => {}
+                    Ok(Err(m)) => sp.viol("capacity", opsig, m, &desc),
+                    Err(m) => sp.viol("capacity", opsig, format!("panicked: {m}"), &desc),
+                }
+                sp.drain_reg(opsig, &desc);
+                sp.ctx.stats.bump("large_capacity_requests", 1);
+                sp.done(&desc, true, opsig);
+            }
+        }
+    }
+    run::<U1>(&mut sp);
+    run::<W8d>(&mut sp);
+    run::<S24d>(&mut sp);
+    run::<A32d>(&mut sp);
+    run::<L160d>(&mut sp);
+}
+#[cfg(not(feature = "alloc"))]
+pub fn c10_large(_ctx: &mut Ctx) {}
+
+// ---------------------------------------------------------------------------------------------
+// C14 / C02: iterators and range operations at lengths where a narrowed cursor or counter would wrap
+// (2^8, 2^16 with real elements; 2^32 with zero-sized ones, whose length can simply be set)
+
+#[cfg(feature = "alloc")]
+pub fn c14_large(ctx: &mut Ctx) {
+    use any_vec::mem::Heap;
+    if ctx.tool_mode {
+        return;
+    }
+    let mut sp = Sp::new(ctx, "large-iter", "W8:Heap-large".into());
+    sp.ctx.ordinal = 0;
+    monalloc::set_mode(monalloc::MODE_OFF);
+    type V = AnyVec<dyn TNone, Heap>;
+    let idv = |e: &W8| e.probe().unwrap_or(u64::MAX);
+    let lens: &[usize] = &[255, 256, 257, 65_535, 65_536, 65_537, 70_001];
+    for &len in lens {
+        for what in 0..6u8 {
+            if !sp.take() {
+                continue;
+            }
+            reg::reset();
+            let opsig = ["iter", "iter_mut", "typed.iter", "drain", "typed.drain", "splice"][what as usize];
+            let desc = format!("W8:Heap|len={len}|{opsig}");
+            let r = guarded(|| -> Result<(), String> {
+                let mut v: V = AnyVec::new::<W8>();
+                {
+                    let mut tv = v.downcast_mut::<W8>().unwrap();
+                    for i in 0..len {
+                        tv.push(W8::make(i as u64));
+                    }
+                }
+                macro_rules! walk {
+                    ($it:expr, $id:expr) => {{
+                        let mut it = $it;
+                        if it.len() != len || it.size_hint() != (len, Some(len)) {
+                            return Err(format!("fresh iterator over {len} elements: len()={} size_hint()={:?}", it.len(), it.size_hint()));
+                        }
+                        let a = it.next().map($id);
+                        let b = it.next_back().map($id);
+                        if a != Some(0) || b != Some(len as u64 - 1) {
+                            return Err(format!("next()/next_back() gave {a:?}/{b:?}, expected 0/{}", len - 1));
+                        }
+                        let k = len - 12;
+                        let c = it.nth(k).map($id);
+                        if c != Some(1 + k as u64) || it.len() != 9 {
+                            return Err(format!("nth({k}) gave {c:?} (expected {}), then len()={} (expected 9)", 1 + k, it.len()));
+                        }
+                        let d = it.nth_back(3).map($id);
+                        if d != Some(len as u64 - 5) || it.len() != 5 {
+                            return Err(format!("nth_back(3) gave {d:?} (expected {}), then len()={} (expected 5)", len - 5, it.len()));
+                        }
+                        let rest = it.count();
+                        if rest != 5 {
+                            return Err(format!("count() of the remaining items gave {rest}, expected 5"));
+                        }
+                    }};
+                }
+                match what {
+                    0 => {
+                        walk!(v.iter(), |e: any_vec::element::ElementRef<dyn TNone, Heap>| e.downcast_ref::<W8>().map(idv).unwrap_or(u64::MAX));
+                        let n = v.iter().count();
+                        let l = v.iter().last().map(|e| e.downcast_ref::<W8>().map(idv).unwrap_or(u64::MAX));
+                        let p = v.iter().rposition(|e| e.downcast_ref::<W8>().map(idv) == Some(len as u64 - 2));
+                        if n != len || l != Some(len as u64 - 1) || p != Some(len - 2) {
+                            return Err(format!("count()={n} last()={l:?} rposition(len-2)={p:?} over {len} elements"));
+                        }
+                    }
+                    1 => walk!(v.iter_mut(), |mut e: any_vec::element::ElementMut<dyn TNone, Heap>| e.downcast_mut::<W8>().map(|x| idv(&*x)).unwrap_or(u64::MAX)),
+                    2 => {
+                        let tv = v.downcast_ref::<W8>().unwrap();
+                        walk!(tv.iter(), |e: &W8| idv(e));
+                    }
+                    3 | 4 => {
+                        // a short range at the far end, partially consumed from both ends
+                        let (a, b) = (len - 7, len - 2);
+                        let got: Vec<u64> = if what == 3 {
+                            let mut d = v.drain(a..b);
+                            if d.len() != 5 {
+                                return Err(format!("drain({a}..{b}).len()={}", d.len()));
+                            }
+                            let x = d.next().map(|e| e.downcast_ref::<W8>().map(idv).unwrap_or(u64::MAX));
+                            let y = d.next_back().map(|e| e.downcast_ref::<W8>().map(idv).unwrap_or(u64::MAX));
+                            vec![x.unwrap_or(u64::MAX), y.unwrap_or(u64::MAX), d.len() as u64]
+                        } else {
+                            let mut tv = v.downcast_mut::<W8>().unwrap();
+                            let mut d = tv.drain(a..b);
+                            let x = d.next().map(|e| idv(&e));
+                            let y = d.next_back().map(|e| idv(&e));
+                            vec![x.unwrap_or(u64::MAX), y.unwrap_or(u64::MAX), d.len() as u64]
+                        };
+                        if got != vec![a as u64, b as u64 - 1, 3] {
+                            return Err(format!("drain({a}..{b}): next/next_back/len gave {got:?}, expected [{a}, {}, 3]", b - 1));
+                        }
+                        let tv = v.downcast_ref::<W8>().unwrap();
+                        let s = tv.as_slice();
+                        if s.len() != len - 5 || idv(&s[a - 1]) != a as u64 - 1 || idv(&s[a]) != b as u64 || idv(&s[len - 6]) != len as u64 - 1 {
+                            return Err(format!("after drain({a}..{b}) of {len}: len {} and neighbours {:?}", s.len(), [idv(&s[a - 1]), idv(&s[a]), idv(&s[s.len() - 1])]));
+                        }
+                        // a long range from the front, consumed through nth
+                        let mut v2 = v;
+                        let l2 = len - 5;
+                        let mut d = v2.drain(1..l2 - 1);
+                        let z = d.nth(l2 - 4).map(|e| e.downcast_ref::<W8>().map(idv).unwrap_or(u64::MAX));
+                        let left = d.len();
+                        drop(d);
+                        let tv = v2.downcast_ref::<W8>().unwrap();
+                        let ids: Vec<u64> = tv.as_slice().iter().map(idv).collect();
+                        if left != 1 || ids != vec![0, len as u64 - 1] || z.is_none() {
+                            return Err(format!("drain(1..{}) then nth({}): item {z:?}, {left} left, vector afterwards {:?}", l2 - 1, l2 - 4, &ids[..ids.len().min(6)]));
+                        }
+                    }
+                    _ => {
+                        // replace a long middle range by three elements
+                        let (a, b) = (2usize, len - 2);
+                        let repl = [900_001u64, 900_002, 900_003].map(|i| AnyValueWrapper::new(W8::make(i)));
+                        let mut sp_it = v.splice(a..b, repl);
+                        let n0 = sp_it.len();
+                        let first = sp_it.next().map(|e| e.downcast_ref::<W8>().map(idv).unwrap_or(u64::MAX));
+                        let last = sp_it.next_back().map(|e| e.downcast_ref::<W8>().map(idv).unwrap_or(u64::MAX));
+                        drop(sp_it);
+                        let tv = v.downcast_ref::<W8>().unwrap();
+                        let ids: Vec<u64> = tv.as_slice().iter().map(idv).collect();
+                        if n0 != b - a || first != Some(2) || last != Some(b as u64 - 1) || ids != vec![0, 1, 900_001, 900_002, 900_003, len as u64 - 2, len as u64 - 1] {
+                            return Err(format!("splice({a}..{b}, 3 items) of {len}: len()={n0}, ends {first:?}/{last:?}, vector afterwards {:?}", &ids[..ids.len().min(9)]));
+                        }
+                    }
+                }
+                Ok(())
+            });
+            match r {
+                Ok(Ok(())) => {}
+                Ok(Err(m)) => sp.viol(if what >= 3 { "model" } else { "iter" }, opsig, m, &desc),
+                Err(m) => sp.viol("model", opsig, format!("panicked: {m}"), &desc),
+            }
+            let _ = reg::take_violations();
+            sp.ctx.stats.bump("large_iter_elements", len as u64);
+            sp.done(&desc, true, opsig);
+        }
+    }
+    // zero-sized elements: a length beyond 2^32 costs nothing
+    sp.cfg = "Z0:Heap-large".into();
+    for &len in &[(1usize << 16) + 3, (1usize << 32) + 5] {
+        if !sp.take() {
+            continue;
+        }
+        let opsig = "zst-iter+drain";
+        let desc = format!("Z0:Heap|len={len}|{opsig}");
+        let r = guarded(|| -> Result<(), String> {
+            let mut v: V = AnyVec::new::<Z0>();
+            v.reserve(len);
+            if v.capacity() < len {
+                return Err(format!("reserve({len}) for a zero-sized type leaves capacity {}", v.capacity()));
+            }
+            unsafe { v.set_len(len) };
+            let mut it = v.iter();
+            if it.len() != len || it.size_hint() != (len, Some(len)) {
+                return Err(format!("iter().len()={} size_hint()={:?} over {len} zero-sized elements", it.len(), it.size_hint()));
+            }
+            // walking 2^32 items one by one is left out: nth only at the smaller length
+            let huge = len > (1 << 20);
+            if huge {
+                if it.next().is_none() || it.next_back().is_none() || it.len() != len - 2 {
+                    return Err(format!("next() / next_back() over {len} zero-sized elements leave len()={}", it.len()));
+                }
+            } else if it.nth(len - 4).is_none() || it.len() != 3 || it.next_back().is_none() || it.len() != 2 {
+                return Err(format!("nth({}) / next_back() over {len} zero-sized elements leave len()={}", len - 4, it.len()));
+            }
+            drop(it);
+            let tl = v.downcast_ref::<Z0>().unwrap().iter().len();
+            if tl != len {
+                return Err(format!("typed iter().len()={tl} over {len} zero-sized elements"));
+            }
+            let mut d = v.drain(len - 5..);
+            let n = d.len();
+            let got = d.by_ref().count();
+            drop(d);
+            if n != 5 || got != 5 || v.len() != len - 5 {
+                return Err(format!("drain({}..) of {len}: len()={n}, yielded {got}, vector length afterwards {}", len - 5, v.len()));
+            }
+            let mut d = v.drain(..len - 7);
+            let n = d.len();
+            let (x, left) = if huge {
+                (d.next().is_some() && d.next_back().is_some() && d.len() == n - 2, 1)
+            } else {
+                (d.nth(len - 9).is_some(), d.len())
+            };
+            drop(d);
+            if n != len - 7 || !x || left != 1 || v.len() != 2 {
+                return Err(format!("drain(..{}) of {}: len()={n}, nth hit {x}, {left} left, vector length afterwards {}", len - 7, len - 5, v.len()));
+            }
+            Ok(())
+        });
+        match r {
+            Ok(Ok(())) => {}
+            Ok(Err(m)) => sp.viol("iter", opsig, m, &desc),
+            Err(m) => sp.viol("iter", opsig, format!("panicked: {m}"), &desc),
+        }
+        let _ = reg::take_violations();
+        sp.done(&desc, true, opsig);
+    }
+}
+#[cfg(not(feature = "alloc"))]
+pub fn c14_large(_ctx: &mut Ctx) {}
